@@ -665,6 +665,24 @@ func evalEnum(fn *ssa.Function, k int64) (res ssa.Value, val int64, isConst bool
 	}
 	undecided := false
 	decide := func(w *paths.Walker, cond ssa.Value) int {
+		if subj, neq, ok := nilTest(cond); ok {
+			switch v := w.Resolve(subj).(type) {
+			case *ssa.Const:
+				if v.IsNil() {
+					if neq {
+						return -1
+					}
+					return 1
+				}
+			case *ssa.MakeInterface, *ssa.Alloc, *ssa.MakeSlice, *ssa.MakeMap:
+				if neq {
+					return 1
+				}
+				return -1
+			}
+			undecided = true
+			return 0
+		}
 		b, ok := cond.(*ssa.BinOp)
 		if !ok {
 			undecided = true
